@@ -314,7 +314,16 @@ impl ParsedPacket {
             self.recompute()?;
             debug_assert!(!self.maybe_compressed);
         }
-        let rr_len = rr.packet.len();
+        // A question only has a name, a type and a class: when a full record is
+        // given for the question section, its TTL and data do not belong there
+        let rr_packet = match section {
+            Section::Question => {
+                let question_len = Compress::raw_name_len(&rr.packet) + DNS_RR_QUESTION_HEADER_SIZE;
+                &rr.packet[..question_len]
+            }
+            _ => &rr.packet[..],
+        };
+        let rr_len = rr_packet.len();
         let packet_len = self.packet().len();
         if packet_len > DNS_MAX_UNCOMPRESSED_SIZE || DNS_MAX_UNCOMPRESSED_SIZE - packet_len < rr_len
         {
@@ -326,12 +335,12 @@ impl ParsedPacket {
         let new_len = packet_len + rr_len;
         self.packet_mut().reserve(rr_len);
         if insertion_offset == new_len {
-            self.packet_mut().extend_from_slice(&rr.packet);
+            self.packet_mut().extend_from_slice(rr_packet);
         } else {
             let packet = self.packet_mut();
             packet.resize(new_len, 0);
             packet.copy_within(insertion_offset..packet_len, insertion_offset + rr_len);
-            packet[insertion_offset..insertion_offset + rr_len].copy_from_slice(&rr.packet);
+            packet[insertion_offset..insertion_offset + rr_len].copy_from_slice(rr_packet);
         }
         match section {
             Section::Question => {
